@@ -177,6 +177,18 @@ def _mk_hostile(kind, exc_code):
         class WeirdDict:
             __dict__ = 5
         return WeirdDict()
+    if kind == 'badmeta':
+        # a class whose metaclass does not give away its name (type(value).__name__ raises)
+        class Meta(type):
+            def __getattribute__(cls, name):
+                if name in ('__name__', '__qualname__'):
+                    raise exc('metaclass hides %s' % name)
+                return type.__getattribute__(cls, name)
+
+        class Nameless(metaclass=Meta):
+            def __init__(self):
+                self.inner = 7
+        return Nameless()
     raise ValueError(kind)
 
 
@@ -204,7 +216,7 @@ def _mk_hsub(base, dunder, exc_code):
 
 
 HOSTILE_KINDS = ['badstr', 'badrepr', 'badlen', 'badgetattr', 'badgetattribute', 'baddict', 'badclass', 'badhash',
-                 'badstr_exc', 'badkeys', 'baditer', 'dictless_dunder', 'hsub', 'hsub', 'hsub']
+                 'badstr_exc', 'badkeys', 'baditer', 'dictless_dunder', 'badmeta', 'hsub', 'hsub', 'hsub']
 # values whose str()/traversal legitimately cannot be rendered: only a placeholder is required for them
 OFFENDING_KINDS = set(HOSTILE_KINDS) | {'surrogate'}
 
